@@ -126,6 +126,8 @@ class Tr:
         got_defaults = [ast.dump(d) for d in a.defaults]
         if got_defaults != [ast.dump(ast.parse(d, mode='eval').body) for d in want_defaults]:
             raise Problem('parameter defaults are %s, expected %s' % ([u(d) for d in a.defaults], want_defaults))
+        if spec.get('names') is not None and names[1:] != spec['names']:
+            raise Problem('public parameter names are %s, the ISession API says %s' % (names[1:], spec['names']))
         if fn.decorator_list and not spec.get('decorated'):
             raise Problem('unexpected decorator')
         env = {}
@@ -734,13 +736,14 @@ FUNCS = [
          params=[SESS], sig='(o : opts) (now : Z) (s0 : sess) : sess * res'),
     dict(qual='BaseCookieSessionFactory.CookieSession.flash', gen='gen_flash', ret='METHOD', decorated=True,
          params=[SESS, ('msg', 'JV'), ('queue', 'TX'), ('allow_duplicate', 'B')], defaults=["''", 'True'],
+         names=['msg', 'queue', 'allow_duplicate'],
          sig='(o : opts) (now : Z) (msg : jv) (queue : text) (allow_duplicate : bool) (s0 : sess) : sess * res',
          on_raise={'AttributeError': '($s, RErr 2%N)'}, unmodelled='($s, RUnm)'),
     dict(qual='BaseCookieSessionFactory.CookieSession.pop_flash', gen='gen_pop_flash', ret='METHOD', decorated=True,
-         params=[SESS, ('queue', 'TX')], defaults=["''"],
+         params=[SESS, ('queue', 'TX')], defaults=["''"], names=['queue'],
          sig='(o : opts) (now : Z) (queue : text) (s0 : sess) : sess * res'),
     dict(qual='BaseCookieSessionFactory.CookieSession.peek_flash', gen='gen_peek_flash', ret='METHOD', decorated=True,
-         params=[SESS, ('queue', 'TX')], defaults=["''"],
+         params=[SESS, ('queue', 'TX')], defaults=["''"], names=['queue'],
          sig='(o : opts) (now : Z) (queue : text) (s0 : sess) : sess * res'),
     dict(qual='BaseCookieSessionFactory.CookieSession.new_csrf_token', gen='gen_new_csrf', ret='METHOD', decorated=True,
          params=[SESS], extra=('tok',), sig='(o : opts) (now : Z) (tok : text) (s0 : sess) : sess * res'),
